@@ -42,6 +42,173 @@ theorem ins_byte {i : Nat} (h : i < 256) : (u8 i).toNat = i := u8_toNat_lt h
 
 end Xmp.Fmt.It
 
+namespace Xmp.Fmt.It.Sex
+open Xmp Xmp.Fmt
+
+/-! ## IT sample compression: the widest-code encoder against the `itsex.c` model, bit level -/
+
+theorem valBits_succ (n v : Nat) :
+    valBits (n + 1) v = decide (v % 2 = 1) :: valBits n (v / 2) := by
+  unfold valBits
+  rw [List.range_succ_eq_map, List.map_cons, List.map_map]
+  congr 1
+  · simp
+  · apply List.map_congr_left
+    intro k _
+    have e : 2 ^ k * 2 = 2 * 2 ^ k := Nat.mul_comm _ _
+    simp only [Function.comp, Nat.pow_succ, Nat.div_div_eq_div_mul, e]
+
+theorem valBits_length (n v : Nat) : (valBits n v).length = n := by simp [valBits]
+
+theorem bitsVal_valBits (n v : Nat) : bitsVal (valBits n v) = v % 2 ^ n := by
+  induction n generalizing v with
+  | zero => simp [valBits, bitsVal, Nat.mod_one]
+  | succ n ih =>
+    rw [valBits_succ, bitsVal, ih, Nat.pow_succ]
+    have h2 : v % 2 = 0 ∨ v % 2 = 1 := by omega
+    have key : v % (2 ^ n * 2) = v % 2 + 2 * (v / 2 % 2 ^ n) := by
+      rw [Nat.mul_comm (2 ^ n) 2, Nat.mod_mul]
+    rw [key]
+    rcases h2 with h | h <;> simp [h]
+
+theorem readBits_valBits (n v : Nat) (h1 : 0 < n) (h2 : n < 32) (rest : List Bool) :
+    readBits n (valBits n v ++ rest) = some (v % 2 ^ n, rest) := by
+  unfold readBits
+  have a : ¬ (n = 0 ∨ n ≥ 32) := by omega
+  have l := valBits_length n v
+  simp only [a, if_false, List.take_left' l, List.drop_left' l, l, Nat.lt_irrefl, bitsVal_valBits]
+
+/-- the decoder's integrators applied to a delta list (what `step` does at the widest width) -/
+def integ (M : Nat) (it215 : Bool) : List Nat → (temp temp2 : Nat) → List Nat
+  | [], _, _ => []
+  | d :: r, temp, temp2 =>
+    let t := (d + temp) % M
+    let t2 := (temp2 + t) % M
+    (if it215 then t2 else t) :: integ M it215 r t t2
+
+theorem cfg_facts (is16 : Bool) :
+    let c := cfg is16
+    7 ≤ c.W ∧ c.W < 32 ∧ c.B < c.W ∧ c.M < 2 ^ c.W ∧ c.M = 2 ^ c.B ∧ (c.M = 256 ∨ c.M = 65536) := by
+  cases is16 <;> simp [cfg, Cfg.M]
+
+/-- one decoder step on a widest-width code -/
+theorem step_widest (is16 it215 : Bool) (st : St) (d : Nat) (rest : List Bool)
+    (hl : st.left = (cfg is16).W) (hd : d < (cfg is16).M) :
+    step (cfg is16) it215 st (valBits (cfg is16).W (d % 2 ^ (cfg is16).W) ++ rest) =
+      .out (if it215 then (st.temp2 + (d + st.temp) % (cfg is16).M) % (cfg is16).M else (d + st.temp) % (cfg is16).M)
+        { st with temp := (d + st.temp) % (cfg is16).M,
+                  temp2 := (st.temp2 + (d + st.temp) % (cfg is16).M) % (cfg is16).M } rest := by
+  obtain ⟨h7, h32, hB, hM, _, _⟩ := cfg_facts is16
+  have hdW : d % 2 ^ (cfg is16).W = d := Nat.mod_eq_of_lt (by omega)
+  unfold step
+  rw [hl, readBits_valBits _ _ (by omega) h32, hdW, hdW]
+  have a1 : ¬ ((cfg is16).W < 7) := by omega
+  have a2 : ¬ ((cfg is16).W < (cfg is16).W) := by omega
+  have a3 : ¬ ((cfg is16).W ≥ (cfg is16).W + 1) := by omega
+  have a4 : ¬ (d ≥ (cfg is16).M) := by omega
+  have a5 : ¬ ((cfg is16).W < (cfg is16).B) := by omega
+  simp only [a1, a2, a3, a4, if_false, signExt, a5, Nat.mod_eq_of_lt hd]
+
+/-- widest-code bit stream of a delta list -/
+theorem encDeltas_widest (is16 : Bool) (ds : List Nat) (i : Nat) :
+    encDeltas (cfg is16) (fun _ => 0) ds i (cfg is16).W =
+      ds.flatMap fun d => valBits (cfg is16).W (d % 2 ^ (cfg is16).W) := by
+  induction ds generalizing i with
+  | nil => rfl
+  | cons d r ih =>
+    simp only [encDeltas, fits, if_true, List.flatMap_cons]
+    simp only [ne_eq, not_true_eq_false, false_and, if_false, List.nil_append, List.append_cancel_left_eq]
+    exact ih (i + 1)
+
+theorem decBlock_widest (is16 it215 : Bool) (ds : List Nat) (hds : ∀ d ∈ ds, d < (cfg is16).M)
+    (st : St) (hl : st.left = (cfg is16).W) (fuel : Nat) (hf : ds.length + 1 ≤ fuel) (rest : List Bool) :
+    decBlock (cfg is16) it215 fuel ds.length st
+        ((ds.flatMap fun d => valBits (cfg is16).W (d % 2 ^ (cfg is16).W)) ++ rest) =
+      some (integ (cfg is16).M it215 ds st.temp st.temp2) := by
+  induction ds generalizing st fuel with
+  | nil =>
+    obtain ⟨f, rfl⟩ : ∃ f, fuel = f + 1 := ⟨fuel - 1, by simp at hf; omega⟩
+    simp [decBlock, integ]
+  | cons d r ih =>
+    obtain ⟨f, rfl⟩ : ∃ f, fuel = f + 1 := ⟨fuel - 1, by simp at hf; omega⟩
+    simp only [List.length_cons, List.flatMap_cons, List.append_assoc, decBlock]
+    rw [step_widest is16 it215 st d _ hl (hds d (by simp))]
+    simp only
+    rw [ih (fun x hx => hds x (by simp [hx]))
+      { st with temp := (d + st.temp) % (cfg is16).M, temp2 := (st.temp2 + (d + st.temp) % (cfg is16).M) % (cfg is16).M }
+      hl f (by simp at hf; omega)]
+    simp [integ]
+
+/-- integrating the writer's deltas gives back the samples (IT 2.14: `temp` tracks the previous sample;
+IT 2.15: `temp2` tracks the previous sample and `temp` the previous first difference) -/
+theorem integ_deltas (is16 it215 : Bool) (xs : List Nat) (hx : ∀ x ∈ xs, x < (cfg is16).M)
+    (prev prevT temp temp2 : Nat) (hp : prev < (cfg is16).M) (hpt : prevT < (cfg is16).M)
+    (hinv : if it215 then temp = prevT ∧ temp2 = prev else temp = prev) :
+    integ (cfg is16).M it215 (deltas (cfg is16) it215 xs prev prevT) temp temp2 = xs := by
+  obtain ⟨_, _, _, _, _, hM⟩ := cfg_facts is16
+  induction xs generalizing prev prevT temp temp2 with
+  | nil => rfl
+  | cons x r ih =>
+    have hxM := hx x (by simp)
+    generalize hMM : (cfg is16).M = M at *
+    cases it215
+    · simp only [Bool.false_eq_true, if_false] at hinv
+      subst hinv
+      simp only [deltas, integ, Bool.false_eq_true, if_false, hMM]
+      have e : ((x + M - temp % M) % M + temp) % M = x := by
+        rcases hM with h | h <;> subst h <;> omega
+      rw [e]
+      congr 1
+      exact ih (fun y hy => hx y (by simp [hy])) x _ x _ hxM (Nat.mod_lt _ (by omega)) rfl
+    · simp only [if_true] at hinv
+      obtain ⟨h1, h2⟩ := hinv
+      subst h1 h2
+      simp only [deltas, integ, if_true, hMM]
+      have e1 : (((x + M - temp2 % M) % M + M - temp % M) % M + temp) % M = (x + M - temp2 % M) % M := by
+        rcases hM with h | h <;> subst h <;> omega
+      have e2 : (temp2 + (x + M - temp2 % M) % M) % M = x := by
+        rcases hM with h | h <;> subst h <;> omega
+      rw [e1, e2]
+      congr 1
+      exact ih (fun y hy => hx y (by simp [hy])) x _ _ x hxM (Nat.mod_lt _ (by omega)) ⟨rfl, rfl⟩
+
+theorem deltas_lt (is16 it215 : Bool) (xs : List Nat) (prev prevT : Nat) :
+    ∀ d ∈ deltas (cfg is16) it215 xs prev prevT, d < (cfg is16).M := by
+  obtain ⟨_, _, _, _, _, hM⟩ := cfg_facts is16
+  have hpos : 0 < (cfg is16).M := by rcases hM with h | h <;> omega
+  induction xs generalizing prev prevT with
+  | nil => simp [deltas]
+  | cons x r ih =>
+    intro d hd
+    simp only [deltas, List.mem_cons] at hd
+    rcases hd with hd | hd
+    · subst hd; split <;> exact Nat.mod_lt _ hpos
+    · exact ih _ _ d hd
+
+theorem deltas_length (c : Cfg) (it215 : Bool) (xs : List Nat) (prev prevT : Nat) :
+    (deltas c it215 xs prev prevT).length = xs.length := by
+  induction xs generalizing prev prevT with
+  | nil => rfl
+  | cons x r ih => simp [deltas, ih]
+
+/-- **one block, widest codes, bit level**: the `itsex.c` model decodes the writer's bit stream (IT 2.14 and
+IT 2.15, 8 and 16 bit) back to the samples. -/
+theorem decBlock_encDeltas_widest (is16 it215 : Bool) (xs : List Nat) (hx : ∀ x ∈ xs, x < (cfg is16).M)
+    (i fuel : Nat) (hf : xs.length + 1 ≤ fuel) (rest : List Bool) :
+    decBlock (cfg is16) it215 fuel xs.length { left := (cfg is16).W }
+        (encDeltas (cfg is16) (fun _ => 0) (deltas (cfg is16) it215 xs 0 0) i (cfg is16).W ++ rest) = some xs := by
+  obtain ⟨_, _, _, _, _, hM⟩ := cfg_facts is16
+  have hpos : 0 < (cfg is16).M := by rcases hM with h | h <;> omega
+  rw [encDeltas_widest]
+  have := decBlock_widest is16 it215 (deltas (cfg is16) it215 xs 0 0) (deltas_lt is16 it215 xs 0 0)
+    { left := (cfg is16).W } rfl fuel (by rw [deltas_length]; exact hf) rest
+  rw [deltas_length] at this
+  rw [this]
+  congr 1
+  exact integ_deltas is16 it215 xs hx 0 0 0 0 hpos hpos (by cases it215 <;> simp)
+
+end Xmp.Fmt.It.Sex
+
 namespace Xmp.Fmt
 /-- 8-bit sign conversion is an involution (S3M `ffi = 2`, IT convert bit 0 clear) -/
 theorem signFlip8_involutive (b : Bytes) : signFlip false (signFlip false b) = b := by
